@@ -131,6 +131,9 @@ func (s *Sniffer) readStreamOnceWithReadDeadline() error {
 
 	var netErr net.Error
 	if errors.As(err, &netErr) && netErr.Timeout() {
+		// The deadline was the sniffer's own and has been cleared again: the
+		// stream itself is intact, so later reads must reach the connection.
+		s.dataError = nil
 		// Keep behavior consistent with context timeout path in the legacy async read.
 		return fmt.Errorf("%w: %w", ErrNotApplicable, context.DeadlineExceeded)
 	}
